@@ -50,6 +50,21 @@ func (e *Enc) background(n int) string {
 	for _, l := range e.cs.Raw {
 		b.WriteString(l + "\n")
 	}
+	for _, nm := range e.cs.SmtFunOrder {
+		useDef := false
+		if e.ct != nil {
+			for _, d := range strings.Fields(e.ct.Opts["defs"]) {
+				if d == nm {
+					useDef = true
+				}
+			}
+		}
+		if useDef {
+			b.WriteString(e.cs.SmtFuns[nm][1] + "\n")
+		} else {
+			b.WriteString(e.cs.SmtFuns[nm][0] + "\n")
+		}
+	}
 	for _, d := range e.specDecls {
 		b.WriteString(d + "\n")
 	}
@@ -183,13 +198,28 @@ func solveOne(outDir, bg string, o *Obligation, tier string, budget, seed int) *
 		r.Output = "VC larger than 4 MB: generator error"
 		return r
 	}
+	// two passes: a short attempt with every solver (whichever decides quickly wins), then the full budget
+	type attempt struct {
+		sp  solverSpec
+		tmo int
+	}
+	var plan []attempt
+	short := 2
+	if budget <= short {
+		short = budget
+	}
+	for _, sp := range solvers {
+		plan = append(plan, attempt{sp, short})
+	}
+	if budget > short {
+		for _, sp := range solvers {
+			plan = append(plan, attempt{sp, budget})
+		}
+	}
 	order := solvers
 	var lastOut string
-	for k, sp := range order {
-		tmo := budget
-		if k == 0 && tier != "thorough" {
-			tmo = budget
-		}
+	for _, at := range plan {
+		sp, tmo := at.sp, at.tmo
 		st, out, secs := runSolver(sp, file, tmo)
 		r.Seconds += secs
 		if st == "unsat" {
